@@ -69,6 +69,10 @@ def run(ctx):
     rep.rule("PD-2", "no emitter can run in state Faulty", floor=5)
     rep.rule("PD-3", "peer-delay formula and corrections have the IEEE linear form", floor=15)
     rep.rule("PD-4", "stores into an existing peer-delay exchange are gated on id and requester identity", floor=7)
+    rep.rule("PD-5", "start_bmca/end_bmca keep port_state (Faulty), peer_delay_state, mean_delay and the pdelay "
+                     "sequence generator", floor=2)
+    fc.check_lifecycle_transfer(rep, prog, "PD-5", fields={"port_state", "peer_delay_state", "mean_delay",
+                                                           "pdelay_seq_ids"}, check_pending=False)
     rows = fsm.transitions(prog)
     for r in rows:
         b = r["body"]
